@@ -44,7 +44,7 @@ Proof. exact forty_nine_are_not_enough. Qed.
 Print Assumptions C08_bound_is_nearly_tight.
 
 Section C08.
-Context {D SY : Type} (dops : dict_ops D) (sops : syl_ops SY) (conv : conv_fn).
+Context {D SY : Type} (dops : dict_ops D) (sops : syl_ops SY) (conv : conv_fn D).
 
 (* ---- what a commit learns ---- *)
 (* auto_learn = learn_phrase applied, in order, to: every phrase interval under the syllables it
